@@ -232,6 +232,11 @@ def run(chk):
             chk.count("generator_gave_up")
     chk.notes["exhaustive"] = True
     chk.judge(chunk=1200)
+    if chk.tier != "quick":
+        # generated workflows (spec/PipelineGen.tla -> real API -> Pipeline.tla):
+        # the steps that belong to this property's operations
+        from .chains import run_chains
+        run_chains(chk, 60, cfg="PipelineGen_l6.cfg", only_prop="C06")
     return chk.finish(
         rule="every index tuple (ranks (1,1),(2,0) exhaustive over a 16-index "
              "universe with spins and numbered names i, i1, i10, i12; ranks "
